@@ -714,6 +714,11 @@ M("C15", "forwarded-request-without-derived-host", "poolmanager.py",
   "            headers = kw.get(\"headers\", self.headers)\n            kw[\"headers\"] = self._set_proxy_headers(url, headers)\n\n        return super().urlopen(method, url, redirect=redirect, **kw)",
   "            return super().urlopen(method, url, redirect=redirect, **kw)\n\n        return super().urlopen(method, url, redirect=redirect, **kw)", rule="C15-R8")
 
+# ---- C14-R9 / F18: a repaired scratch variant (each '%' examined on its own) must be silent
+M("C14", "repair:F18-escape-examined-per-position", "util/url.py",
+  "        if (is_percent_encoded and byte == b\"%\") or (\n            byte_ord < 128 and byte.decode() in allowed_chars\n        ):",
+  "        if (byte == b\"%\" and _PERCENT_RE.match(uri_bytes[i : i + 3].decode(\"latin-1\"))) or (\n            byte_ord < 128 and byte.decode() in allowed_chars\n        ):", rule=None, benign=True)
+
 # --------------------------------------------------------------------------- seeded changes written by independent sub-agents (see /verif/seeded/)
 def S(prop, name, rule=None):
     MUTANTS.append(dict(prop=prop, name="seed:" + name, patch=f"seeded/{prop}-{name}/patch.diff", rule=rule, benign=False))
